@@ -14,7 +14,7 @@ func init() {
 		Level: "Structural necessary conditions of crash durability, decided on every path of the named functions: " +
 			"write path orders memtable append and log append before the acknowledgement under the shared snapshot lock; log switch and memtable swap are one exclusive critical section; " +
 			"flush order index→data files→log removal; replay→force-flush→log deletion; uncommitted files never loaded; drop flushes before deleting; a torn record never reaches the replay callback; " +
-			"log-partition counter realigned at switch. NOT decided: equality of recovered contents with pre-crash contents, fsync semantics of the VFS, interleavings of two live log generations.",
+			"log-partition counter realigned at switch. after a restart every data file found on disk (ordered or out-of-order) enters the load context from which the next file sequence number is taken, so the flush that follows the log replay cannot overwrite an existing file; NOT decided: equality of recovered contents with pre-crash contents, fsync semantics of the VFS, interleavings of two live log generations.",
 		Assumptions: commonAssumptions,
 		Technique:   "static analysis: must-precede / success-edge cuts on go/cfg, must-hold lockset dataflow, who-may-call tables over the type-resolved call index",
 		Rules:       "C01.R1 R2 R2b R3 R3b R4 R5 R6 R7 R8 R9 R10 R11 T1",
